@@ -315,7 +315,10 @@ def field_deviations(kind):
     """Symbolic single-field deviations for one field kind."""
     if isinstance(kind, (tuple, list)):
         return ["empty", "badutf8", "len1M", "lenmax"]
-    if kind in ("str", "text"):
+    if kind == "str":
+        # same-length values: all zero bytes / all ff / 01 00.. (degenerate public values, points, signatures)
+        return ["empty", "badutf8", "len1M", "lenmax", "zeros", "ffs", "one"]
+    if kind == "text":
         return ["empty", "badutf8", "len1M", "lenmax"]
     if kind == "list":
         return ["empty", "badutf8", "len1M", "lenmax", "empty-elem", "nonascii"]
@@ -386,6 +389,12 @@ def _edit_field(f, d):
         return _lp(b"")
     if d == "badutf8":
         return _lp(b"\xff\xfe")
+    if d == "zeros":
+        return _lp(b"\x00" * (len(f) - 4))
+    if d == "ffs":
+        return _lp(b"\xff" * (len(f) - 4))
+    if d == "one":
+        return _lp((b"\x01" + b"\x00" * (len(f) - 5)) if len(f) > 4 else b"")
     if d == "len1M":
         return (1 << 20).to_bytes(4, "big") + f[4:]
     if d == "lenmax":
